@@ -34,6 +34,11 @@ fn(H2 + "._flush", params={}, modifies=[], effect="yields",
    ensures=[("flush.forwards", "trace_all('sent', 'x', isinstance(x, RawData))", "C02")], props=("C04",))
 
 fn(H2 + "._send_data", params={"stream_id": "int"}, task="send",
+   # C08.release / C09: a stream is taken out of scheduling only on what is true *now*: nothing to
+   # send, or no window.  (Blocking on a window value read before a suspension loses the wake-up of
+   # a WINDOW_UPDATE handled in between: nobody unblocks a stream that was not yet blocked.)
+   model_opts={"call_requires": {"PriorityTree.block": [("C08.block.current",
+       "h2_window(self.connection, stream_id) <= 0 or h2_max_frame(self.connection) <= 0 or len(map_val(self.stream_buffers, stream_id).buffer) == 0", "C08,C09,C02")]}},
    requires=[("send_data.pre.scheduled", "stream_id != 0 and sel(self.priority.has, stream_id) and in_map(self.stream_buffers, stream_id)")],
    ensures=[
        ("C09.order.same-stream", "trace_all('h2', 'x', x[1] == stream_id)", "C09,C02"),
@@ -82,9 +87,9 @@ fn(H2 + "._window_updated", params={"stream_id": "opt int"}, task="reader",
    ensures=[
        # C09.wake: new credit on the connection (stream 0) or a changed initial window makes every
        # stream with buffered data schedulable again, and the send task is woken
-       ("C09.wake.all", "implies(stream_id is None or stream_id == 0, forall_int('k', implies(in_map(old(self.stream_buffers), k), sel(self.priority.active, k))))", "C09,C08"),
-       ("C09.wake.one", "implies(stream_id is not None and stream_id != 0 and in_map(old(self.stream_buffers), stream_id), sel(self.priority.active, stream_id))", "C09,C08"),
-       ("C09.wake.signal", "self.has_data.flag", "C09,C08"),
+       ("C09.wake.all", "implies(stream_id is None or stream_id == 0, forall_int('k', implies(in_map(old(self.stream_buffers), k), sel(self.priority.active, k))))", "C09,C08,C02"),
+       ("C09.wake.one", "implies(stream_id is not None and stream_id != 0 and in_map(old(self.stream_buffers), stream_id), sel(self.priority.active, stream_id))", "C09,C08,C02"),
+       ("C09.wake.signal", "self.has_data.flag", "C09,C08,C02"),
    ],
    props=("C04", "C09"))
 fn(H2 + "._priority_updated", params={"event": "obj h2.events:PriorityUpdated"}, task="reader", props=("C04", "C09"))
